@@ -69,6 +69,36 @@ pub open spec fn vector_copied(to: Rc<Vector>, at: int, from: Rc<Vector>, start:
 pub open spec fn list_cell(h: crate::vm::heap::Heap, start: VCell, j: nat) -> VCell decreases j {
     if j == 0 { start } else { match list_cell(h, start, (j - 1) as nat) { VCell::Pair(a, d) => heap_deref(h, VCell::Ptr(d)), _ => VCell::Undefined } }
 }
+/// std: `impl<T> From<T> for T` is the identity
+#[verifier::external_body]
+pub proof fn axiom_vcell_into_self_v()
+    ensures <VCell as vstd::std_specs::convert::IntoSpec<VCell>>::obeys_into_spec(),
+            forall|c: VCell| #[trigger] <VCell as vstd::std_specs::convert::IntoSpec<VCell>>::into_spec(c) == c {}
+/// the list that starts at pointer `start` has exactly the elements s and ends in (): the car of the j-th pair designates s[j] -- a
+/// pointer value is stored as itself, any other value in an allocated cell that holds it -- and every cell of the list is allocated
+pub open spec fn list_of(h: crate::vm::heap::Heap, start: VCell, s: Seq<VCell>) -> bool decreases s.len() {
+    heap_live(h, start) && if s.len() == 0 { heap_deref(h, start) is Nil } else {
+        heap_deref(h, start) matches VCell::Pair(a, d)
+        && (if s[0] is Ptr { VCell::Ptr(a) == s[0] } else { heap_live(h, VCell::Ptr(a)) && heap_deref(h, VCell::Ptr(a)) == s[0] })
+        && list_of(h, VCell::Ptr(d), s.subrange(1, s.len() as int))
+    }
+}
+/// a heap change that keeps every allocated cell allocated and unchanged keeps every list
+pub proof fn lemma_list_of_preserved(h: crate::vm::heap::Heap, h2: crate::vm::heap::Heap, start: VCell, s: Seq<VCell>)
+    requires list_of(h, start, s), forall|c: VCell| #[trigger] heap_live(h, c) ==> heap_live(h2, c) && heap_deref(h2, c) == heap_deref(h, c)
+    ensures list_of(h2, start, s)
+    decreases s.len()
+{
+    if s.len() > 0 {
+        match heap_deref(h, start) { VCell::Pair(a, d) => { lemma_list_of_preserved(h, h2, VCell::Ptr(d), s.subrange(1, s.len() as int)); } _ => {} }
+    }
+}
+/// contents of a vector handle (by reference: ghost lets in exec code may not move the Rc)
+pub open spec fn rc_view(v: &Rc<Vector>) -> Seq<VCell> { vector_view(**v) }
+/// allocated cells stay allocated and keep their content
+pub open spec fn heap_extended(h: crate::vm::heap::Heap, h2: crate::vm::heap::Heap) -> bool {
+    forall|c: VCell| #[trigger] heap_live(h, c) ==> heap_live(h2, c) && heap_deref(h2, c) == heap_deref(h, c)
+}
 pub uninterp spec fn into_vec<T>(x: T) -> Seq<VCell>;
 #[verifier::external_body]
 pub proof fn axiom_into_vec() ensures forall|x: Vec<VCell>| #[trigger] into_vec::<Vec<VCell>>(x) == x@ {}
@@ -167,6 +197,42 @@ UNITS = [
                         start <= end <= vector_view(*from_vector).len(), at + (end - start) <= vector_view(*to_vector).len(), vector_view(*to_vector).len() <= usize::MAX,
                         forall|j: int| start <= j < i ==> #[trigger] vector_written(*to_vector, at + (j - start), vector_view(*from_vector)[j]),'''},
                 'loop_count': 1,
+            },
+            '::make_vector': {
+                'props': T, 'requires': POP_REQ,
+                'body_start': 'proof { axiom_into_vec(); if old(vm).stack_spec().sp_spec() > 2 { axiom_cow_cell_ref(&arg(*old(vm), 1)); axiom_cow_cell_ref(&arg(*old(vm), 2)); } else if old(vm).stack_spec().sp_spec() > 1 { axiom_cow_cell_ref(&arg(*old(vm), 1)); } }',
+                'ensures': [
+                    # k slots, every one holding the fill argument itself (0 when none is given)
+                    (['C14'], '''r matches Ok(x) ==> (arg(*old(vm), 0) matches VCell::ArgumentCount(n) && (x matches VCell::Vector(nv)
+                        && (n == 2 ==> (cell_index(old(vm).heap_spec(), arg(*old(vm), 2)) == Some(vlen(nv) as usize) && forall|i: int| 0 <= i < vlen(nv) ==> #[trigger] vector_view(*nv)[i] == arg(*old(vm), 1)))
+                        && (n == 1 ==> cell_index(old(vm).heap_spec(), arg(*old(vm), 1)) == Some(vlen(nv) as usize))))'''),
+                ],
+            },
+            '::vector_to_list': {
+                'props': T, 'requires': POP_REQ,
+                'ensures': [
+                    # a fresh proper list of exactly the vector's elements, in order, each car designating the element itself;
+                    # no allocated cell is changed (the vector and everything else keep their contents)
+                    (['C14'], '''r matches Ok(t) ==> (cell_vector(old(vm).heap_spec(), arg(*old(vm), 1)) matches Some(v)
+                        && list_of(final(vm).heap_spec(), t, vector_view(*v)) && heap_extended(old(vm).heap_spec(), final(vm).heap_spec()))'''),
+                ],
+                'body_start': 'proof { axiom_vcell_into_self_v(); }',
+                'loop_iter': {0: 'it0'},
+                'loops': {0: '''invariant
+                        tail is Ptr, heap_extended(old(vm).heap_spec(), vm.heap_spec()),
+                        list_of(vm.heap_spec(), tail, rc_view(&vector).subrange(rc_view(&vector).len() - it0.index@, rc_view(&vector).len() as int)),'''},
+                'loop_count': 1,
+                'inserts': [
+                    {'anchor': 'Ok(tail)', 'where': 'before', 'text': 'proof { assert(rc_view(&vector).subrange(0, rc_view(&vector).len() as int) =~= rc_view(&vector)); }'},
+                    {'loop_start': 0, 'text': 'let ghost h0 = vm.heap_spec(); let ghost t0 = tail; let ghost done = rc_view(&vector).subrange(rc_view(&vector).len() - it0.index@, rc_view(&vector).len() as int);'},
+                    {'loop_end': 0, 'text': '''proof {
+                        let view = rc_view(&vector); let n = view.len() as int; let c = it0.index@;
+                        let now = view.subrange(n - c - 1, n);
+                        assert(now.subrange(1, now.len() as int) =~= done);
+                        assert(now[0] == view[n - c - 1]);
+                        lemma_list_of_preserved(h0, vm.heap_spec(), t0, done);
+                    }'''},
+                ],
             },
             '::list_to_vector': {
                 'props': T, 'requires': POP_REQ,
